@@ -281,7 +281,7 @@ struct L11 : Listener {
                     Probe p3 = probe([&](Probe &Q) { Q.desc = std::to_string(P.pointIdx(lateName)); });
                     (void)p3;
                     P.point_nonConst(0).name(lateName);
-                    Probe p4 = probe([&](Probe &Q) { Q.desc = std::to_string(P.pointIdx(lateName)); Q.addr = &P.point(lateName); });
+                    Probe p4 = probe([&](Probe &Q) { Q.desc = std::to_string(P.pointIdx(lateName)); Q.addr = &static_cast<const ezc3d::DataNS::Points3dNS::Points &>(P).point(lateName); });
                     if (p4.threw || p4.desc != "0" || p4.addr != &P.point(0)) { fail(i, "after giving element 0 the name " + q(lateName) + " the look-up by name does not return the first element with that name"); return; }
                 }
             }
